@@ -163,10 +163,6 @@ func postRun(res *vf.Result, mf MainFinal, scratch string, cp caps, resets []res
 	}
 	if sfx == "" && interrupted != "" {
 		sfx = ":after-interrupted-checkpoint"
-		if strings.Contains(interrupted, "bump litestream seq") {
-			// listed finding F38: the bookkeeping write right after wal_checkpoint met SQLITE_BUSY
-			sfx = ":after-checkpoint-failed-at-seq-bump"
-		}
 		note += " [a checkpoint failed after wal_checkpoint had run: " + interrupted + "]"
 	}
 	note += root
@@ -294,6 +290,12 @@ func postRun(res *vf.Result, mf MainFinal, scratch string, cp caps, resets []res
 	}
 
 	// ---- restores that ran concurrently with everything else: success must be a committed state
+	type pendingRestore struct{ msg string }
+	var pendRestores []pendingRestore
+	restoreBad := func(format string, a ...any) {
+		pendRestores = append(pendRestores, pendingRestore{fmt.Sprintf(format, a...)})
+	}
+	f38Snapshot := false // an ahead-of-its-TXID level-9 file was found for this database (listed finding F38)
 	for _, r := range mf.Restores {
 		res.Evals++
 		res.Count("concurrent_restores_judged", 1)
@@ -301,13 +303,13 @@ func postRun(res *vf.Result, mf MainFinal, scratch string, cp caps, resets []res
 		case r.Left:
 			res.Violate("concurrent-restore-left-output", "%s: a Restore(latest) that ran while the daemon was working failed (%s) and left a database at its output path%s", tag, r.Integ, root)
 		case r.Integ != "ok":
-			res.Violate("concurrent-restore-inconsistent"+sfx, "%s: a Restore(latest) that ran while the daemon was working reported success at t=%.2fs but its output fails integrity_check / is unreadable: %s%s", tag, float64(r.T1)/1e9, trunc(r.Integ, 160), note)
+			restoreBad("%s: a Restore(latest) that ran while the daemon was working reported success at t=%.2fs but its output fails integrity_check / is unreadable: %s%s", tag, float64(r.T1)/1e9, trunc(r.Integ, 160), note)
 		case r.Poison > 0:
-			res.Violate("concurrent-restore-inconsistent"+sfx, "%s: a Restore(latest) that ran while the daemon was working reported success at t=%.2fs with %d rows of rolled-back transactions%s", tag, float64(r.T1)/1e9, r.Poison, note)
+			restoreBad("%s: a Restore(latest) that ran while the daemon was working reported success at t=%.2fs with %d rows of rolled-back transactions%s", tag, float64(r.T1)/1e9, r.Poison, note)
 		case mf.Hashes[r.K] == "":
-			res.Violate("concurrent-restore-inconsistent"+sfx, "%s: a Restore(latest) that ran while the daemon was working reported success at t=%.2fs with ledger k=%d, which the application never committed%s", tag, float64(r.T1)/1e9, r.K, note)
+			restoreBad("%s: a Restore(latest) that ran while the daemon was working reported success at t=%.2fs with ledger k=%d, which the application never committed%s", tag, float64(r.T1)/1e9, r.K, note)
 		case mf.Hashes[r.K] != r.Hash:
-			res.Violate("concurrent-restore-inconsistent"+sfx, "%s: a Restore(latest) that ran while the daemon was working reported success at t=%.2fs; its content at ledger k=%d differs from what the application committed (mixture of commits)%s", tag, float64(r.T1)/1e9, r.K, note)
+			restoreBad("%s: a Restore(latest) that ran while the daemon was working reported success at t=%.2fs; its content at ledger k=%d differs from what the application committed (mixture of commits)%s", tag, float64(r.T1)/1e9, r.K, note)
 		}
 	}
 
@@ -403,28 +405,58 @@ func postRun(res *vf.Result, mf MainFinal, scratch string, cp caps, resets []res
 			snapBad[a.Max] = true
 			// attribution: where do the differing page images come from?
 			var attr []string
+			stale := false // some differing page is an OLDER replicated version (at or below the advertised TXID)
 			for pg, d := range lf.Pages {
 				if w, ok := want[pg]; ok && bytes.Equal(w, d) {
 					continue
 				}
 				src := "no archived level-0 file"
+				low, high := false, false
 				for n := 1; n <= ar.Max(); n++ {
 					if f := ar.Files[n]; f != nil {
 						if v, ok := f.Pages[pg]; ok && bytes.Equal(v, d) {
 							src = fmt.Sprintf("L0/%d", n)
+							if n <= a.Max {
+								low = true
+							} else {
+								high = true
+							}
 						}
 					}
 				}
-				attr = append(attr, fmt.Sprintf("page %d = version of %s", pg, src))
-				if len(attr) >= 6 {
-					break
+				if low && !high {
+					stale = true
+				}
+				if len(attr) < 6 {
+					attr = append(attr, fmt.Sprintf("page %d = version of %s", pg, src))
 				}
 			}
 			sort.Strings(attr)
 			note2 := " {" + strings.Join(attr, "; ") + "}"
 			res.Logf("%s: snapshot 1-%d attribution:%s", tag, a.Max, note2)
+			sfx := sfx
+			if !stale && sfx != ":snapshot-ahead-of-l0-at-reset" && len(resets) == 0 {
+				// Listed finding F38: a level-9 file that is AHEAD of the TXID it advertises (every
+				// differing page is a version replicated later, or a state between two replicated
+				// TXIDs / a torn page), while the level-0 chain itself is consistent, in a run
+				// without ResetLocalState on this database (with one it was F39, fixed: stale in-memory
+				// WAL offset after the baseline was re-fetched). A level-9 file that holds an OLDER
+				// version of some page keeps the unlisted key.
+				sfx = ":level-9-file-ahead-of-its-txid"
+				f38Snapshot = true
+			}
 			res.Violate("snapshot-content-mismatch"+sfx, "%s: level-9 file 1..%d != image_%d re-composed from the archived level-0 files (%v); L0-only image is consistent at ledger k=%d, the snapshot alone: k=%d %s%s%s", tag, a.Max, a.Max, perr, kref, ks, orOK(sWhy), note2, note)
 		}
+	}
+
+	// concurrent restores judged above: the listed finding F38 explains them only if this
+	// database really has a level-9 file that is ahead of its TXID
+	for _, pr := range pendRestores {
+		rs := sfx
+		if f38Snapshot && rs != ":snapshot-ahead-of-l0-at-reset" {
+			rs = ":level-9-file-ahead-of-its-txid"
+		}
+		res.Violate("concurrent-restore-inconsistent"+rs, "%s", pr.msg)
 	}
 
 	// ---- C02: listed TXIDs restore to one committed state, k monotone
